@@ -8,7 +8,7 @@ RULE = ('run_timeout is called with generated worker functions: sleeping / busy-
         'nested inside a run_timeout with a shorter limit, blocking in one native sleep, nested inside another run_timeout, and back-to-back after a timeout; the '
         'observed outcome class must be in the set the extracted `allowed` gives for (duration, limit, jitter tolerance); after '
         'the call returns the worker function must not be executing any more; the caller must see nothing but the result, the '
-        'own exception of the function or TimeoutError; a later call must be unaffected; non-trivial = duration within 2x of the '
+        'own exception of the function or TimeoutError; a later call must be unaffected; third batch: an iteration over connection-count tuples (what the selector runs under the limiter) is interrupted by throwing KeyboardInterrupt into it, or abandoned, after k elements: a new generator with the cache enabled must list and count what it did before; non-trivial = duration within 2x of the '
         'limit or a swallowing/native/nested program; distinct = program description')
 TRUSTED = ['wall-clock durations are measured with a jitter tolerance of 60 ms + 50 % of the limit; within the tolerance both outcomes '
            'are accepted']
@@ -53,12 +53,25 @@ def batches(tier, seed):
     for j in range(0, len(RET), 2):
         inst.append({'kind': 'sleep', 'limit_ms': 1500, 'dur_ms': 0, 'ret': j, 'exc': 0, '_after_timeout': True, '_i': 1300 + j})
     yield 'instant-programs', inst
+    # "results of calls made afterwards are unaffected by an earlier timeout": what an interrupted computation leaves
+    # behind. The selector counts matrices under the limiter; the interrupt is thrown into the iteration at a chosen element
+    import matcase
+    intr = []
+    for i in range(16 if tier == 'quick' else 200):
+        c = matcase.gen(rng, max_src=2, max_tgt=3, overrides=rng.random() < 0.3)
+        c.pop('family', None)
+        c.update({'_mode': 'interrupt', '_i': 2000 + i, '_s': rng.randrange(1 << 30)})
+        intr.append(c)
+    yield 'interrupted-computations', intr
 
 
 def run_case(case):
     """timing-sensitive: an outcome outside the allowed set is re-tried twice before it counts (a loaded machine can delay a
     thread by more than the tolerance; a broken limiter fails every time)"""
     from common import run_dsgm
+    if case.get('_mode') == 'interrupt':
+        from props import C12
+        return C12.run_interrupted(case)
     last = None
     for attempt in range(3):
         r = _run_once(case)
@@ -174,6 +187,8 @@ def _run_once(case):
 
 
 def compare(case, r, ms):
+    if case.get('_mode') == 'interrupt':
+        return None
     allowed = ms[0]
     if r['impl'] not in allowed:
         return {'clause': 'outcome-not-allowed', 'detail': 'kind %s duration %d ms limit %d ms: observed %s after %d ms, allowed %s' % (
